@@ -96,3 +96,11 @@ Theorem C12_vesting_types_export_import_is_identity :
   vtypes_store (map gvtype_entry (vstore_export_vtypes s)) = vs_vtypes s.
 Proof. exact vtype_store_export_import_identity. Qed.
 Print Assumptions C12_vesting_types_export_import_is_identity.
+
+(* the parameters: the store a genesis initialises carries the genesis' vesting denomination, which is what the export writes
+   (the implementation's exported denomination is part of what is compared with the model in every `vgenesis` case, a third of
+   them with a denomination other than the module's default) *)
+Theorem C12_vesting_genesis_keeps_the_denomination :
+  forall g B s, vgenesis_init g B = Some s -> vs_denom s = vg_denom g.
+Proof. exact init_keeps_the_denomination. Qed.
+Print Assumptions C12_vesting_genesis_keeps_the_denomination.
